@@ -152,8 +152,12 @@ func canonAttrs(n *html.Node, o Options) string {
 	case "input":
 		if t, ok := get("type"); ok {
 			if v, ok2 := get("value"); ok2 {
-				radio := strings.EqualFold(strings.TrimSpace(t), "radio")
-				if !radio && v == "" || radio && strings.EqualFold(v, "on") {
+				// HTML: value modes. "value" and "default" (hidden): a missing attribute is the empty string; "default/on"
+				// (checkbox, radio): a missing attribute is "on"; buttons: a missing attribute is the default label
+				ty := strings.ToLower(strings.TrimSpace(t))
+				checkable := ty == "radio" || ty == "checkbox"
+				button := ty == "submit" || ty == "reset" || ty == "button"
+				if !checkable && !button && v == "" || checkable && v == "on" {
 					del("value")
 				}
 			}
